@@ -136,6 +136,57 @@ void h_parse_twin(void)
   }
 }
 
+
+/* O14.3  scan() against a naive matcher written from the property: the 48-bit pattern 0x314159265359 followed by 32 more bits.
+   Input: SCAN_LIVE buffered bits + SCAN_WORDS words, every bit symbolic, symbolic skip distance. */
+#ifndef SCAN_LIVE
+#define SCAN_LIVE 5
+#endif
+#ifndef SCAN_WORDS
+#define SCAN_WORDS 3
+#endif
+#define SCAN_TOTAL (SCAN_LIVE + 32 * SCAN_WORDS)
+void h_scan(void)
+{
+  struct bitstream b; uint32_t mem[SCAN_WORDS + 1];
+  V_IN(uint64_t, buff);
+  V_IN_ARR(uint32_t, wd, SCAN_WORDS + 1);
+  V_IN(unsigned, skip);
+  unsigned i, j;
+  unsigned char bit[SCAN_TOTAL + 1];
+  V_ASSUME(SCAN_LIVE == 0 ? buff == 0 : (buff << SCAN_LIVE) == 0);
+  V_ASSUME(skip <= SCAN_TOTAL + 40);
+  for (i = 0; i < SCAN_WORDS; i++) mem[i] = htonl(wd[i]);
+  for (i = 0; i < SCAN_LIVE; i++) bit[i] = (unsigned char)((buff >> (63 - i)) & 1u);
+  for (i = 0; i < 32 * SCAN_WORDS; i++) bit[SCAN_LIVE + i] = (unsigned char)((wd[i / 32] >> (31 - i % 32)) & 1u);
+  b.live = SCAN_LIVE; b.buff = buff; b.data = mem; b.limit = mem + SCAN_WORDS; b.eof = 0; b.block = 0;
+  /* where the search starts: the current position, or -- when skip exceeds the buffered bits -- the word boundary the distance rounds up to */
+  unsigned start = skip <= SCAN_LIVE ? 0 : SCAN_LIVE + 32 * ((skip - SCAN_LIVE + 31) / 32);
+  if (start > SCAN_TOTAL) start = SCAN_TOTAL;
+  /* naive matcher: first p >= start with bit[p .. p+48) == pattern */
+  static const uint64_t PAT = 0x314159265359ull;
+  int found = -1;
+  for (i = 0; i + 48 <= SCAN_TOTAL; i++) {
+    if (i < start || found >= 0) continue;
+    int eq = 1;
+    for (j = 0; j < 48; j++) if (bit[i + j] != (unsigned char)((PAT >> (47 - j)) & 1u)) eq = 0;
+    if (eq) found = (int)i;
+  }
+  int rv = scan(&b, skip);
+  unsigned left = b.live + 32u * (unsigned)(b.limit - b.data);
+  V_ASSERT(rv == OK || rv == MORE, "scan returns OK or MORE");
+  if (found >= 0 && (unsigned)found + 80 <= SCAN_TOTAL) {
+    V_ASSERT(rv == OK, "scan finds the first occurrence of the header pattern that lies wholly at or after the start position and has 32 bits after it");
+    V_ASSERT(rv != OK || SCAN_TOTAL - left == (unsigned)found + 80, "on OK the bit position is exactly the end of the pattern plus the 32 bits that follow it");
+    V_CANARY("scan reports a candidate");
+  } else {
+    V_ASSERT(rv == MORE, "scan reports nothing where the pattern (with its 32 following bits) does not occur");
+    V_ASSERT(rv != MORE || left == 0, "on MORE the whole block has been consumed");
+    V_CANARY("scan reports nothing");
+  }
+  V_ASSERT(b.live <= 63 && (b.live == 0 ? b.buff == 0 : (b.buff << b.live) == 0), "bit buffer stays well formed");
+}
+
 #ifdef VERIF_REPLAY
 int main(void) { HARNESS(); puts("REPLAY-PASS"); return 0; }
 #endif
